@@ -71,6 +71,16 @@ CHECKS = {
         design="7 (C19), 1 (N1)",
         technique="deterministic simulation: seeded wake-up order of pending constraints + posting-order permutations, integer-arithmetic oracle",
     ),
+    "C22": dict(
+        text="Seeded exploration of eq/diseq and CLP(FD) programs run with an instrumented User type: probes between goals and an "
+             "observer at the end read, in whatever state reaches them, the with_constraint/take_constraint counters against the "
+             "store size, check every process_extension argument against the substitution, and compare each branch's tag log, "
+             "process_extension call count and binding count with the reference interpreter's own root-to-answer path. Which "
+             "constraints normalisation drops and which histories exist depend on store iteration order and on interleaving, "
+             "which the simulator chooses.",
+        design="7 (C22), 4 (R5), 1 (N1, N2)",
+        technique="deterministic simulation: instrumented User hooks as invariant monitors at probe points under seeded store order and yields",
+    ),
     "C06": dict(
         text="Seeded exploration of (search program x leaf timing script x iteration-order policy x yield sites): on finite "
              "trees the interleaving answer multiset must equal an independent reference interpreter and the same program "
